@@ -183,12 +183,14 @@ def random_case(rng, max_events=40, span_beats=400):
     step = rng.choice([1, 4, 12, 24, 48])
     hot = sorted({rng.randrange(0, span, step) for _ in range(max(2, n // 2))} | ({0} if rng.random() < 0.4 else set()))
     c = {"bpms": {}, "stops": {}, "delays": {}, "warps": {}}
-    bpm_style = rng.choice(["mid", "mid", "low", "high", "wide", "nice"])
+    bpm_style = rng.choice(["mid", "mid", "low", "high", "wide", "nice", "bounds"])
 
     def bpm():
         if bpm_style == "nice":  # 60/BPM is a finite decimal: event times can be hit exactly by an offset
             return rng.choice(["60", "120", "150", "240", "30", "200", "100", "75", "300", "96", "125", "160", "250", "48", "80",
                                "192", "128", "64", "60.000", "120.000"])
+        if bpm_style == "bounds":  # the ends of the domain the properties name (1..2000), exactly, in several spellings
+            return rng.choice(["1", "1.000", "2000", "2000.000", "1", "2000", "1.000000", "2", "1.001", "1999.999", "120"])
         if bpm_style == "mid":
             return rdec(rng, 60, 300)
         if bpm_style == "low":
